@@ -384,7 +384,7 @@ if len(path) == 0 { *buf = &(*x)
 return}`
 	// Header for Loop() method.
 	funcHeaderLoop := ""
-	if node.typ != typeSlice {
+	if node.typ != typeSlice && node.typ != typeMap {
 		funcHeaderLoop += "if len(path) == 0 { return }\n"
 	}
 	funcHeaderLoop += `if src == nil { return }
